@@ -175,6 +175,6 @@ func runBR(c BRCase, rec *h.Rec) error {
 	return nil
 }
 
-var propBR = h.NewProp("TestPropBlindRotation", h.Budget{Quick: 150, Thorough: 3000}, genBRCase, runBR)
+var propBR = h.NewProp("TestPropBlindRotation", h.Budget{Quick: 200, Thorough: 3000}, genBRCase, runBR)
 
 func TestPropBlindRotation(t *testing.T) { propBR.Check(t) }
